@@ -34,6 +34,11 @@ def strategy_case(draw):
         N[i] = max(2, N[i] // 2)
     target = draw(st.sampled_from(["ttrank", "ttrank", "inv", "exp", "cos"])) if routine == "dmrg_cross" else \
         draw(st.sampled_from(["inv", "exp", "cos", "inv"]))
+    if routine in ("dmrg_cross", "fi_uni") and draw(st.integers(0, 39)) == 0:
+        # exact rank-1 target whose factors are mostly zero (from the audit): the support is 0.24 % of the entries
+        target = "sparse1"
+        N = [10] * 5
+        d = 5
     case = {"routine": routine, "N": N, "target": target, "seed": draw(gen.SEED), "lib_seed": draw(gen.SEED),
             "eps": 10 ** draw(st.floats(-10, -3))}
     if target == "ttrank":
@@ -133,6 +138,10 @@ def execute(case):
     if case["target"] == "ttrank":
         Tc = core.make_cores({"N": N, "R": case["R"], "dt": "f64", "mode": "gauss", "seed": case["seed"]})
         ref = dense(Tc)
+    elif case["target"] == "sparse1":
+        vv = torch.tensor([0.0] * 7 + [1.0, 2.0, 3.0], dtype=torch.float64)
+        Tc = [vv.reshape(1, -1, 1).clone() for _ in N]
+        ref = dense(Tc)
     else:
         ref = _g(case, ssum)
     sc = 10.0 ** case.get("scale10", 0)
@@ -167,11 +176,15 @@ def execute(case):
         y = lib(lambda: T.interpolate.dmrg_cross(f, list(N), eps=eps, x_start=start))
     elif routine == "fi_uni":
         # x[I] = sum_k i_k ; univariate f applied to actual entries of x
-        xs = T.meshgrid([torch.arange(n, dtype=torch.float64) for n in N])
-        x = xs[0]
-        for t in xs[1:]:
-            x = x + t
-        x = x.round(1e-14)
+        if case["target"] == "sparse1":
+            x = T.TT([c_.clone() for c_ in Tc])
+            ref = ref * ref
+        else:
+            xs = T.meshgrid([torch.arange(n, dtype=torch.float64) for n in N])
+            x = xs[0]
+            for t in xs[1:]:
+                x = x + t
+            x = x.round(1e-14)
         vals = torch.unique(dense(x.cores).reshape(-1))
 
         def f(v):
@@ -186,7 +199,7 @@ def execute(case):
                     if float(near.max()) > 1e-8 * max(1.0, float(vals.abs().max())):
                         mon["bad"] = "value %g passed to f is not an entry of the argument tensor" % float(flat[int(near.argmax())])
             mon["evals"] += v.numel()
-            return _g(case, v) * sc
+            return (v * v if case["target"] == "sparse1" else _g(case, v)) * sc
         torch.manual_seed(case["lib_seed"])
         if case.get("start_is_arg"):
             start = x
